@@ -6,8 +6,14 @@ import sys
 
 pid = sys.argv[1]
 n = sys.argv[2] if len(sys.argv) > 2 else "2"
+rnd = sys.argv[3] if len(sys.argv) > 3 else ""
+import glob, os
+avoid = []
+if rnd:
+    for f in sorted(glob.glob("/verif/seeded/%s_*/meta.json" % pid)):
+        avoid.append("- " + (json.load(open(f)).get("summary") or "")[:300])
 p = [json.loads(l) for l in open("/verif/properties.jsonl") if json.loads(l)["id"] == pid][0]
-wt = "/tmp/seed-%s" % pid
+wt = "/tmp/seed-%s%s" % (pid, rnd)
 print("""You are helping to evaluate a verification effort for the C++ project OleksandrKvl/sbepp (a header-only implementation of FIX Simple Binary Encoding: the runtime library sbepp/src/sbepp/sbepp.hpp and the XML schema compiler `sbeppc` under sbeppc/src/sbepp/sbeppc/, which generates view classes). You have your own scratch git worktree of the repository at %(wt)s (work ONLY there; never touch /repo; do NOT read anything under /verif — your work must be independent of it).
 
 Here is a semantic property the project should satisfy:
@@ -17,7 +23,7 @@ Here is a semantic property the project should satisfy:
   quantified over: %(qtext)s
   code anchors: %(files)s
 
-Your task: produce %(n)s DIFFERENT, realistic changes (the kind of slip a maintainer could plausibly make in a refactoring or "optimisation"; each a small diff, ideally touching different mechanisms) to the sources under %(wt)s (library header and/or sbeppc) such that each change
+%(avoid)sYour task: produce %(n)s DIFFERENT, realistic changes (the kind of slip a maintainer could plausibly make in a refactoring or "optimisation"; each a small diff, ideally touching different mechanisms) to the sources under %(wt)s (library header and/or sbeppc) such that each change
   (a) still compiles, and the repository's existing test suite still passes with it, and
   (b) BREAKS the property above, and
   (c) needs something specific to manifest — a particular schema shape, an unusual input or value, a particular multi-step sequence of operations, a particular configuration (language standard / type width / byte order), or two cooperating sites that each look fine alone — NOT something ordinary use would expose at once (if the existing tests fail with it, it is too blunt: refine it).
@@ -35,4 +41,5 @@ Deliverables, all under %(wt)s/_seed/ (create it):
   meta1.json, meta2.json ...       {"property": "%(id)s", "summary": "...what the change does...", "needs": "...what it needs in order to manifest...", "tests": "...what you ran and the result (number of tests passed)...", "demo": "how to run"}
 Leave the worktree's tracked files clean (git checkout -- .) when done; keep _build if you like. In your final message list the changes, how each manifests, and confirm the test-suite result for each.""" % dict(
     wt=wt, id=p["id"], title=p["title"], statement=p["statement"], qtext=p["quantifier"]["text"],
-    files=", ".join(p["anchors"]["files"]), n=n))
+    files=", ".join(p["anchors"]["files"]), n=n,
+    avoid=("An earlier round already produced the following changes; yours must use DIFFERENT mechanisms, code sites and triggering conditions (do not repeat or lightly vary these):\n" + "\n".join(avoid) + "\n\n") if avoid else ""))
